@@ -191,8 +191,13 @@ def load_check(name) -> Check:
     return mod.CHECK
 
 
-def _guarded_execute(check, case, index, timeout_s=120):
+def _guarded_execute(check, case, index, timeout_s=None):
     import faulthandler
+    # a hang must end the worker (and the check, with HARNESS-ERROR), but a
+    # case that is merely slow on a loaded machine must not: checks that
+    # render figures allow more wall-clock time per case
+    if timeout_s is None:
+        timeout_s = getattr(check, "case_timeout_s", 120)
     faulthandler.dump_traceback_later(timeout_s, exit=True)
     try:
         res = check.execute(case)
